@@ -114,6 +114,12 @@ class Gen:
         rng = self.rng
         lo_i = int(lo) if lo is not None else (int(lox) + 1 if lox is not None else (1 if root == 'xs:positiveInteger' else (0 if root == 'xs:nonNegativeInteger' else -20)))
         hi_i = int(hi) if hi is not None else lo_i + 40
+        if root == 'xs:decimal' and getattr(self, 'exponent_floats', False) and rng.random() < 0.05:
+            # floats that Python spells with an exponent (arithmetic residue, very large tenths): str() of them is what gets written and read back.
+            # Only where the library's OWN output is re-read (C08): '1e-05' is not in the lexical space of xs:decimal, so C09 does not use them
+            v = rng.choice([1e-05, 2.5e-07, 1e+16, 5.551115123125783e-17, -1.5e-06, 1.25e+20])
+            if (lox is None or v > float(lox)) and (lo is None or v >= float(lo)) and (hi is None or v <= float(hi)):
+                return repr(v), repr(v)
         if root == 'xs:decimal' and rng.random() < 0.6:
             v = round(rng.uniform(lo_i if lox is None else lo_i - 0.5, hi_i), rng.choice([0, 1, 2, 2, 7, 9]))      # up to 9 fractional digits: every one must survive
             if lox is not None and v <= int(lox):
